@@ -66,6 +66,25 @@ Theorem C10_root_cause : forall ctl st, reachable ctl st ->
   (forall r, In (r, FailChannel) (c_done st) -> chan_closed st = true).
 Proof. exact root_cause. Qed.
 
+(* The same per RUN: after ANY history, once a step has put the connection into teardown with error e, in
+   EVERY continuation (1) the connection keeps e, (2) every request it fails with the router's error fails
+   with e, (3) whatever is completed afterwards is completed with FailBroken e or is a submit made after
+   the fault that was refused with ChannelError after receiver.close(), (4) a request pending at the fault
+   can get nothing but FailBroken e, and (5) has got exactly that when the router has finished.  (The
+   driver's class check of requests the mock never saw rests on (2)-(4): per broken connection the only
+   classes are its root cause and ChannelError.) *)
+Theorem C10_root_cause_run : forall ctl ls1 l ls2 st1 st2 st3 e,
+  run (conn_init ctl) ls1 = Some st1 -> step st1 l = Some st2 -> c_status st2 = TearingDown e ->
+  run st2 ls2 = Some st3 ->
+  closing e st3 /\
+  (forall r e', In (r, FailBroken e') (c_done st3) -> e' = e) /\
+  (forall r o, In (r, o) (c_done st3) ->
+     In (r, o) (c_done st2) \/ o = FailBroken e \/
+     (o = FailChannel /\ chan_closed st3 = true /\ ~ In r (c_submitted st2))) /\
+  (forall r o, In r (pending_rids st2) -> outcome_of r (c_done st3) = Some o -> o = FailBroken e) /\
+  (c_status st3 = Broken e -> forall r, In r (pending_rids st2) -> outcome_of r (c_done st3) = Some (FailBroken e)).
+Proof. exact root_cause_run. Qed.
+
 (* Progress: while tearing down / draining, a step of the router ([TdStep]) is enabled, or -- when
    the router waits in recv() for a sender that holds a slot -- the [Push] of that sender is; the
    step strictly decreases [td_measure] (handlers + queue + 2*reserved + phase) ... *)
@@ -93,6 +112,36 @@ Theorem C10_teardown_is_a_run : forall fuel st, exists ls, run st ls = Some (tea
   Forall (fun l => l = TdStep \/ exists r, l = Push r) ls /\ (List.length ls <= fuel)%nat.
 Proof. exact teardown_run. Qed.
 
+(* Liveness under fairness, the finite core.  [cnt is_prog ls] = number of steps of the teardown agents
+   (router: TdStep, senders holding a slot: Push) in a schedule, [cnt is_subm ls] = number of new submits.
+   For EVERY schedule run from a state in teardown, whatever else is interleaved (submits, drops, late
+   bytes): (1) the agents can take at most  td_measure st + 2 * (new submits)  steps in total, and (2) a
+   schedule that contains that many of their steps HAS finished the teardown: Broken, nothing pending, every
+   request ever submitted has an outcome or was dropped by its caller.  Together with
+   C10_teardown_progress (while not finished one of their steps is enabled) this is the liveness argument:
+   a weakly fair scheduler -- one that does not ignore an enabled router / slot holder for ever -- produces
+   a prefix with that many of their steps; each slot holder contributes ONE own step (its Push). *)
+Theorem C10_fair_liveness : forall ctl st e ls st', reachable ctl st ->
+  c_status st = TearingDown e \/ c_status st = Draining e -> run st ls = Some st' ->
+  (td_measure st' + cnt is_prog ls <= td_measure st + 2 * cnt is_subm ls)%nat /\
+  ((td_measure st + 2 * cnt is_subm ls <= cnt is_prog ls)%nat ->
+     c_status st' = Broken e /\ pending_rids st' = [] /\
+     forall r, In r (c_submitted st') -> (exists o, outcome_of r (c_done st') = Some o) \/ In r (c_cancelled st')).
+Proof. exact fair_liveness. Qed.
+
+(* receiver.close() is reached after at most handlers + 1 steps of the router, whatever is interleaved
+   (new submits included) ... *)
+Theorem C10_fair_close : forall ctl ls st st' e, reachable ctl st -> c_status st = TearingDown e ->
+  run st ls = Some st' -> (List.length (c_handlers st) < cnt is_td ls)%nat -> chan_closed st' = true.
+Proof. exact fair_close. Qed.
+
+(* ... and from then on new submits add nothing: the bound is td_measure alone. *)
+Theorem C10_fair_drain : forall ctl st e ls st', reachable ctl st -> c_status st = Draining e ->
+  run st ls = Some st' ->
+  (td_measure st' + cnt is_prog ls <= td_measure st)%nat /\
+  ((td_measure st <= cnt is_prog ls)%nat -> c_status st' = Broken e /\ pending_rids st' = []).
+Proof. exact fair_drain. Qed.
+
 (* The peer can cut after any chunk: in an open state a chunk is always accepted, and if the
    connection survives it, end of stream puts it into teardown (inside a header or inside a body). *)
 Theorem C10_cut_anywhere : forall st bs, c_status st = Open ->
@@ -117,7 +166,10 @@ Proof. exact fault_completes_all. Qed.
    receiver dropped with the writer, no wait for senders holding a slot ([old_finish]) -- there is a
    reachable state from which the old teardown plus the push of such a sender leaves the request
    in the task channel of a finished router: NO schedule ever completes it.  With the present
-   [step] the same history ends with the request failed (second statement). *)
+   [step] this cannot happen (C10_post_fix_router_completes, for EVERY history and fault: a request pending
+   at the fault -- a sender holding a slot included -- has failed with the connection's error whenever the
+   router finishes, and a finishing schedule exists); the same history as a computed example:
+   C10_ex_post_fix_schedule. *)
 Theorem C10_pre_fix_router_strands :
   exists st r, reachable false st /\ c_status st = Open /\ c_reserved st = [r] /\
     let st1 := old_finish EHeaderIo st in
@@ -126,7 +178,18 @@ Theorem C10_pre_fix_router_strands :
       forall ls st3, run st2 ls = Some st3 -> In r (c_queue st3) /\ outcome_of r (c_done st3) = None.
 Proof. exact pre_fix_router_strands. Qed.
 
-Theorem C10_post_fix_router_completes :
+Theorem C10_post_fix_router_completes : forall ctl ls l st st2 e r,
+  run (conn_init ctl) ls = Some st -> step st l = Some st2 -> c_status st2 = TearingDown e ->
+  In r (pending_rids st2) ->
+  (exists fin st3, run st2 fin = Some st3 /\ Forall (fun l => l = TdStep \/ exists r, l = Push r) fin /\
+     (List.length fin <= td_measure st2)%nat /\ c_status st3 = Broken e /\
+     outcome_of r (c_done st3) = Some (FailBroken e)) /\
+  (forall ls2 st3 e', run st2 ls2 = Some st3 -> c_status st3 = Broken e' ->
+     e' = e /\ outcome_of r (c_done st3) = Some (FailBroken e)).
+Proof. exact post_fix_general. Qed.
+
+(* the history of C10_pre_fix_router_strands under the present [step]: the router waits for the slot holder *)
+Example C10_ex_post_fix_schedule :
   match run (conn_init false) [Reserve 1; Push 1; WriterTake (Some 0); Reserve 2; Eof; TdStep; TdStep] with
   | Some st => c_status st = Draining EHeaderIo /\ step st TdStep = None /\
       match run st [Push 2; TdStep; TdStep] with
@@ -448,6 +511,10 @@ Print Assumptions C10_draining_monotone.
 Print Assumptions C10_teardown_is_a_run.
 Print Assumptions C10_pre_fix_router_strands.
 Print Assumptions C10_post_fix_router_completes.
+Print Assumptions C10_root_cause_run.
+Print Assumptions C10_fair_liveness.
+Print Assumptions C10_fair_close.
+Print Assumptions C10_fair_drain.
 Print Assumptions C10_cut_anywhere.
 Print Assumptions C10_fault_completes_all.
 Print Assumptions C10_no_partial.
